@@ -31,6 +31,10 @@ BestEv(e) ==
     /\ Clause("best-never-replaced-by-a-dominated-position", Dominates(e.old, e.new) => ~e.replaced)
     /\ Clause("best-replaced-otherwise", ~Dominates(e.old, e.new) => e.replaced)
     /\ Clause("best-vector-follows-best-cost", e.vector_follows)
+\* the first personal best of a particle (init_pbest, after the first evaluation) is its evaluated position: signed costs and vector
+FirstBestEv(e) ==
+    /\ Clause("no-exception", e.exc = "")
+    /\ Clause("first-personal-best-is-the-evaluated-position", e.cur = e.best /\ e.same_length /\ e.vector_same)
 LeadersEv(e) ==
     /\ Clause("no-exception", e.exc = "")
     /\ Clause("leaders-never-exceed-population-size", Len(e.members) <= e.n)
@@ -42,6 +46,7 @@ TNext == /\ l <= Len(Traces[tid])
               [] Ev.ev = "constrict" -> ConstrictEv(Ev)
               [] Ev.ev = "velocity"  -> VelocityEv(Ev)
               [] Ev.ev = "best"      -> BestEv(Ev)
+              [] Ev.ev = "firstbest" -> FirstBestEv(Ev)
               [] Ev.ev = "leaders"   -> LeadersEv(Ev)
               [] OTHER -> Clause("known-event", FALSE)
          /\ l' = l + 1 /\ UNCHANGED tid
